@@ -1,6 +1,7 @@
 import Casket.Proofs.AutoHTTPS
 import Casket.Proofs.AutoHTTPSRedirect
 import Casket.Proofs.AutoHTTPSSites
+import Casket.Proofs.AutoHTTPSTLS
 import Casket.Proofs.AutoHTTPSAddr
 import Casket.Proofs.AutoHTTPSInspect
 import Casket.Proofs.AutoHTTPSAddrIP
@@ -219,8 +220,50 @@ theorem C15_sites_model_verdict_ok (P : Ports) (hP : P.ok) (ds : List Site) (hf 
 
 /-- Sites built the way the harness and the Casketfile front end build them are fresh. -/
 theorem C15_siteOf_fresh (a : Address) (bind : Bytes) (v : TLSVariant) : Fresh (siteOf a bind v) := by
-  unfold siteOf applyTLS Fresh
-  cases hb : v.base <;> cases hn : v.noRedirect <;> cases ho : v.onDemand <;> simp
+  unfold siteOf; exact applyTLS_fresh v _ ⟨rfl, rfl, rfl, by simp⟩
+
+/-! ### several `tls` directives in one site block -/
+
+/-- THE DIRECTIVE LOOP: setupTLS's loop over all `tls` directives of a site block (`applyTLSs`: in order, on the same config,
+`tls off` returns at once) leaves exactly the flags of the spec's order-free reading `readTLS` — off as soon as a directive says
+off, manual as soon as ANY directive that counts names a certificate or a `load` directory, self-signed / no_redirect / on-demand
+likewise, the last e-mail written.  For every list of directives and every config. -/
+theorem C15_tls_directives_read (vs : List TLSVariant) (c : Site) : applyTLSs vs c = readTLS vs c :=
+  applyTLSs_eq_readTLS vs c
+
+/-- A later directive never takes back what an earlier one set: Manual (own certificate), SelfSigned, NoRedirect and
+on-demand survive every further `tls` directive of the block, e.g. an imported `tls { protocols … }`. -/
+theorem C15_tls_flags_sticky (vs ws : List TLSVariant) (c : Site) :
+    ((applyTLSs vs c).manual = true → (applyTLSs ws (applyTLSs vs c)).manual = true) ∧
+    ((applyTLSs vs c).selfSigned = true → (applyTLSs ws (applyTLSs vs c)).selfSigned = true) ∧
+    ((applyTLSs vs c).noRedirect = true → (applyTLSs ws (applyTLSs vs c)).noRedirect = true) :=
+  let h := applyTLSs_keeps ws (applyTLSs vs c)
+  ⟨h.1, h.2.1, h.2.2.1⟩
+
+/-- A site whose block names its own certificate in some directive that counts (no `tls off` before it) is never marked
+managed, whatever other `tls` directives the block has before or after it and whatever its address — unless it is on-demand. -/
+theorem C15_own_certificate_never_managed (P : Ports) (a : Address) (bind : Bytes) (vs : List TLSVariant)
+    (hc : (tlsRead vs).any tlsNamesCertificate = true) (hod : (tlsRead vs).any (fun v => tlsActive v && v.onDemand) = false) :
+    (markOneP P (siteOfL a bind vs)).managed = false := by
+  have hm : (siteOfL a bind vs).manual = true := by unfold siteOfL; rw [applyTLSs_eq_readTLS]; simp [readTLS, hc]
+  have ho : (siteOfL a bind vs).onDemand = false := by unfold siteOfL; rw [applyTLSs_eq_readTLS]; simp [readTLS, hod]
+  have hg : (siteOfL a bind vs).managed = false := (applyTLSs_fresh vs _ ⟨rfl, rfl, rfl, by simp⟩).1
+  unfold markOneP qualifiesP qualifiesForManagedTLSP
+  simp [hm, ho, hg]
+
+example : (tlsRead [{ base := .manual }, { base := .block }]).any tlsNamesCertificate = true ∧
+    (tlsRead [{ base := .manual }, { base := .block }]).any (fun v => tlsActive v && v.onDemand) = false ∧
+    (siteOfL { host := b!"example.com" } [] [{ base := .manual }, { base := .block }]).manual = true ∧
+    (siteOfL { host := b!"example.com" } [] [{ base := .load }, { base := .block, noRedirect := true }]).manual = true := by decide
+
+/-- Sites built from a list of directives are fresh, so every pipeline theorem above applies to them. -/
+theorem C15_siteOfL_fresh (a : Address) (bind : Bytes) (vs : List TLSVariant) : Fresh (siteOfL a bind vs) :=
+  applyTLSs_fresh vs _ ⟨rfl, rfl, rfl, by simp⟩
+
+/-- one directive is the list of one -/
+theorem C15_siteOfL_single (a : Address) (bind : Bytes) (v : TLSVariant) : siteOfL a bind [v] = siteOf a bind v := by
+  unfold siteOfL siteOf applyTLSs applyTLSs
+  split <;> rfl
 
 /-! ### the answer of a synthesised site -/
 
